@@ -11,6 +11,7 @@ import (
 	"sort"
 	"strconv"
 	"strings"
+	"sync/atomic"
 	"testing"
 	"testing/synctest"
 	"time"
@@ -70,6 +71,9 @@ type Check struct {
 }
 
 var registry = map[string]*Check{}
+
+var curRun atomic.Int64
+var busy atomic.Bool
 
 func register(c *Check) { registry[c.ID] = c }
 
